@@ -10,5 +10,6 @@ CONSTANTS
   GenNsChoices = {FALSE}
   Spellings <- AllSpellings
   CanonNs = TRUE
+  SupportFromRootParent = FALSE
 INVARIANT Refines
 CHECK_DEADLOCK FALSE
